@@ -304,11 +304,20 @@ inline Slot *&my_slot()
   return s;
 }
 
+// per-case time limit of the running shard (0 = none): re-armed by every begin_case, so that a case that never
+// returns ends its child with SIGALRM and is attributed like any other death ("<context>|signal:Alarm clock")
+inline int &case_timeout_s()
+{
+  static int t = 0;
+  return t;
+}
 inline void begin_case(long long index, const std::string &sigctx, const std::string &replay)
 {
   Slot *s = my_slot();
   if (!s)
     return;
+  if (case_timeout_s() > 0)
+    alarm(case_timeout_s());
   s->index = index;
   snprintf(s->sig, sizeof s->sig, "%s", sigctx.c_str());
   snprintf(s->replay, sizeof s->replay, "%s", replay.c_str());
@@ -392,6 +401,7 @@ inline void run_sharded(int nshards, const std::function<void(int, long long)> &
   std::vector<Child> live;
   std::vector<long long> resume(nshards, -1);
   std::vector<int> restarts(nshards, 0);
+  int alarm_deaths = 0;
   std::vector<int> todo;
   for (int i = nshards - 1; i >= 0; i--)
     todo.push_back(i);
@@ -423,9 +433,11 @@ inline void run_sharded(int nshards, const std::function<void(int, long long)> &
       S().viol_counts.clear();
       S().notes.clear();
       S().capped.clear();
+      case_timeout_s() = per_case_timeout_s;
       if (per_case_timeout_s > 0)
         alarm(per_case_timeout_s);
       body(shard, resume[shard]);
+      alarm(0);
       FILE *f = fdopen(fds[1], "w");
       {
         std::lock_guard<std::mutex> g(S().m);
@@ -504,7 +516,14 @@ inline void run_sharded(int nshards, const std::function<void(int, long long)> &
           firstline.resize(300);
         violation(std::string(sl.sig) + "|" + how, sl.replay, "case died: " + how + " :: " + firstline);
         stat("crashed_cases", 1);
-        if (sl.index > resume[shard] && restarts[shard] < 2000) {
+        // a case that does not return costs a full time limit: after the third such case a shard is given up at its
+        // next one (the violation is recorded either way; what was skipped is reported as capped)
+        const bool timed_out = WIFSIGNALED(status) && WTERMSIG(status) == SIGALRM;
+        if (timed_out)
+          alarm_deaths++;
+        if (timed_out && alarm_deaths > 3) {
+          capped("shard " + std::to_string(shard) + " abandoned: several cases did not return within the time limit (last: " + std::string(sl.replay).substr(0, 120) + ")");
+        } else if (sl.index > resume[shard] && restarts[shard] < 2000) {
           resume[shard] = sl.index;
           restarts[shard]++;
           todo.push_back(shard);
